@@ -100,6 +100,7 @@ var (
 	flagOnDemand  = flag.Int("ondemand", 3, "concurrent on-demand MethodValue goroutines")
 	flagMVMax     = flag.Int("mvmax", 60, "max MethodValue calls per on-demand goroutine")
 	flagOut       = flag.String("out", "", "result JSON (default stdout)")
+	flagGate      = flag.String("gate", "", "JSON file with forced-schedule cases (gate mode); -out receives the per-case results")
 	flagWatchdog  = flag.Int("watchdog", 0, "seconds after which a single run that has not finished is reported as hung (exit 4, goroutine dump)")
 	flagInitial   = flag.String("initial", "", "comma list of package paths that are 'initial' for -create direct (default: all packages matched by the patterns)")
 )
@@ -150,6 +151,15 @@ func main() {
 		}
 	} else {
 		ir.VerifOpen("")
+	}
+	if *flagGate != "" {
+		res := runGate(initial, *flagGate)
+		ir.VerifClose()
+		data, _ := json.Marshal(map[string]any{"gate": res, "wall_ms": time.Since(t0).Milliseconds()})
+		if err := os.WriteFile(*flagOut, data, 0o644); err != nil {
+			fatal("%v", err)
+		}
+		return
 	}
 	out := Output{}
 	for _, p := range initial {
@@ -487,6 +497,10 @@ func collect(rc *runCtx, prog *ir.Program, pkgs []*ir.Package, res *RunResult) {
 			for _, p := range fn.Params {
 				ps = append(ps, p.Name())
 			}
+			ps = append(ps, "|") // then the names carried by the (canonicalised) signature
+			for i := 0; i < fn.Signature.Params().Len(); i++ {
+				ps = append(ps, fn.Signature.Params().At(i).Name())
+			}
 			res.params[k] = ps
 			res.insts[k] = len(fn.TypeArgs()) > 0
 		}
@@ -660,6 +674,7 @@ func runOne(initial []*packages.Package, create, modeS, scenario string, run int
 		for _, p := range pkgs {
 			p.Build()
 		}
+		ir.VerifReset("collect-second " + res.Label)
 		second := &RunResult{}
 		collect(rc, prog, pkgs, second)
 		if first.DumpHash != second.DumpHash {
